@@ -41,6 +41,12 @@ var c20Scripts = []string{
 	"print('x')",
 	"print( PFSYN",
 	"x = 1 PFCRLF\ny = 2 PF03",
+	// python that starts with a placeholder and ends with the closing braces of a nested literal
+	"${{ env.PRELUDE }}\nimport os PF06\nd = {'k': {'v': 1}}",
+	"${{ inputs.x }} = {'a': {'b': 2}} PF07 {{}}",
+	// an issue shellcheck locates in the first line of its input (whole-script / parse-level problems)
+	"echo whole script problem SC1072",
+	"echo $Z SC2086 and SC1091 in one script",
 }
 
 var c20MultiLine = []string{
